@@ -63,9 +63,9 @@ Qed.
 (* StreamParameters: the declared version is 2 exactly when namespace declarations are on, whatever version
    the caller asked for; construction never fails and no other field changes *)
 Section Params.
-Context {K : Type}.
-Theorem source_params_version_is_model (g s d nd : bool) (v : Z) (name : K) :
-  StreamParameters___init__ g s v d nd name =
+Context (S : strops).
+Theorem source_params_version_is_model (g s d nd : bool) (v : Z) (name : carrier S) :
+  StreamParameters___init__ S g s v d nd name =
   Val (mk_StreamParameters g s (if nd then 2 else 1) d nd name).
 Proof.
   unfold StreamParameters___init__, StreamParameters___post_init__.
